@@ -52,3 +52,5 @@ Theorem c02_tie_status_step : forall st l, status_step st l = src_status_step st
 Proof. exact tie_status_step. Qed.
 Theorem c02_tie_status_step_other : forall st s, s <> "fail"%string -> s <> "warn"%string -> src_status_step st s = st.
 Proof. exact tie_status_step_other. Qed.
+Theorem c02_tie_policy_exit : forall passed, policy_exit passed = src_policy_exit passed.
+Proof. exact tie_policy_exit. Qed.
